@@ -309,7 +309,7 @@ func (g *Gen) defaultFor(t *Ty) *Default {
 		}
 		return MkDefault("1.5")
 	case "str":
-		s := g.pick("abc", "ab", "hello", "a", "xyz")
+		s := g.pick("abc", "ab", "hello", "a", "xyz", "", "")
 		if g.p(0.3) {
 			return MkDefault(s) // unquoted: exercises the quoting fallback
 		}
@@ -682,7 +682,7 @@ func (g *Gen) Value(t *Ty, env Env, depth int) *Val {
 			return Bool(g.p(0.5))
 		}
 	case "pattern":
-		return Str(g.pick("^a+$", "[0-9]*", "x|y", "a(b", "", "^.{2}$"))
+		return Str(g.pick("^a+$", "[0-9]*", "x|y", "a(b", "", "^.{2}$", "a\n", "^a$\n", "\n", "a\r\n", "a\\\n", " a ", "a\t"))
 	case "enumInt":
 		if g.p(0.12) {
 			return g.intRep(g.smallInt(), t.Units)
